@@ -957,6 +957,62 @@ func (a *Adv) AuthProbes(perTxn int) int {
 			}
 		}
 	}
+	// An input nobody can satisfy next to an input somebody should have signed: a stored output at the burn address
+	// (no keys, 2^64-1 signatures required; anybody may reveal those conditions) is spent together with a stored output of
+	// an ordinary address for which one required signature is withheld. Signatures are owed per input; what one input
+	// can never supply does not settle what another one lacks.
+	if a.v1Allowed() {
+		used := map[types.SiacoinOutputID]bool{}
+		for _, t := range a.Honest.Transactions {
+			for _, in := range t.SiacoinInputs {
+				used[in.ParentID] = true
+			}
+		}
+		for _, t := range a.Honest.V2Transactions() {
+			for _, in := range t.SiacoinInputs {
+				used[in.Parent.ID] = true
+			}
+		}
+		var decoy, victim *types.SiacoinElement
+		var victimLock Lock
+		median := MedianTimestamp(a.CS)
+		for _, e := range a.G.C.Store.SortedSC() {
+			e := e
+			l, ok := a.G.W.Locks[e.SiacoinOutput.Address]
+			if !ok || used[e.ID] || e.MaturityHeight > a.Child || e.SiacoinOutput.Value.IsZero() || e.SiacoinOutput.Value.Hi>>62 != 0 {
+				continue
+			}
+			switch {
+			case l.Kind == "v1-unsatisfiable" && decoy == nil:
+				decoy = &e
+			case (l.Kind == "v1-std" || l.Kind == "v1-2of3") && victim == nil && l.Spendable(false, a.Child, median):
+				victim, victimLock = &e, l
+			}
+		}
+		if decoy != nil && victim != nil {
+			burn := a.G.W.Locks[decoy.SiacoinOutput.Address]
+			txn := types.Transaction{
+				SiacoinInputs:  []types.SiacoinInput{{ParentID: victim.ID, UnlockConditions: *victimLock.UC}},
+				SiacoinOutputs: []types.SiacoinOutput{{Value: victim.SiacoinOutput.Value.Add(decoy.SiacoinOutput.Value), Address: types.Address{0xD0}}},
+			}
+			SignV1(a.CS, &txn, false) // the victim's signatures over ...
+			txn.SiacoinInputs = append(txn.SiacoinInputs, types.SiacoinInput{ParentID: decoy.ID, UnlockConditions: *burn.UC})
+			for i := range txn.Signatures { // ... the final transaction,
+				ResignV1Slot(a.CS, &txn, i)
+			}
+			if len(txn.Signatures) > 0 {
+				txn.Signatures = txn.Signatures[:len(txn.Signatures)-1] // less one
+				for i := range txn.Signatures {
+					ResignV1Slot(a.CS, &txn, i)
+				}
+				blk := CloneBlock(a.Honest)
+				blk.Transactions = append(blk.Transactions, txn)
+				if a.emit(blk, "v1/witness/signature-withheld-next-to-an-unsatisfiable-input/"+victimLock.Kind, "reject", nil, nil) {
+					n++
+				}
+			}
+		}
+	}
 	// v1 Foundation update appended to a transaction whose Foundation-controlled input is only partially
 	// signed: the partial signatures stay valid (they do not cover the added arbitrary data), so nothing but
 	// the whole-transaction-signature requirement of the Foundation rule stands between a relayer and the
